@@ -275,3 +275,8 @@ Proof. cbn zeta. eexists. repeat split; vm_compute; reflexivity. Qed.
 
 Example consistent_sound_hyps : consistent DeleteRebuild = true /\ accepts_name (site_syntax DeleteRebuild) nT0.
 Proof. split; reflexivity. Qed.
+
+Example index_entries_exact_demo : exists x tb, alookup nIX (s_sidx s_demo) = Some x /\
+  alookup (qual public (si_table x)) (s_tabs s_demo) = Some tb /\
+  dget [Some 20] (si_data x) = [1%nat] /\ matching_positions (t_schema tb) (si_cols x) [Some 20] (t_rows tb) 0 = [1%nat].
+Proof. eexists. eexists. repeat split; vm_compute; reflexivity. Qed.
